@@ -44,10 +44,26 @@ def gen_world(seed, tier):
                 g["weights"] = ws
         elif r < 0.8:
             g = gen.digraph_cyclic(rng, max_nodes=6, max_edges=8, max_routes=3)
+            if rf.random() < 0.35:
+                g = gen.digraph_parallel(rf)      # strongly connected parts joined by parallel edges
         else:
             g = gen.digraph_rich(rng, max_nodes=6, max_extra=5)
             for e in g["edges"]:
                 e[2] = rng.choice([0, 1, 2, 5, 50])
+        if g["kind"] != "dag" and rf.random() < 0.25 and any(e[1] == x for e in g["edges"] for x in g["nodes"]):
+            # a strongly connected part that no source reaches (a 2-cycle or a self-loop without any in-degree-0 node in
+            # front of it) and that feeds into the graph: legal, and the queries are still plain graph searches
+            extra = [x for x in gen.NAME_POOL if x not in g["nodes"]]
+            tgt = rf.choice([x for x in g["nodes"] if any(e[1] == x for e in g["edges"])])      # the sources stay sources
+            if rf.random() < 0.5:
+                p_, q_ = extra[0], extra[1]
+                g["nodes"] = g["nodes"] + [p_, q_]
+                g["edges"] = g["edges"] + [[p_, q_, rf.choice([1, 5, 50])], [q_, p_, rf.choice([1, 9, 70])], [q_, tgt, rf.choice([1, 3])]]
+            else:
+                z_ = extra[0]
+                g["nodes"] = g["nodes"] + [z_]
+                g["edges"] = g["edges"] + [[z_, z_, rf.choice([1, 7, 60])], [z_, tgt, rf.choice([1, 2])]]
+            g["unrooted"] = True
         if rng.random() < 0.25:
             # an isolated node: it is a source and a sink at once
             extra = [x for x in gen.NAME_POOL if x not in g["nodes"]]
@@ -55,15 +71,19 @@ def gen_world(seed, tier):
         graphs.append(g)
     nops = rng.randint(20, 60)
     ops = []
+    last_ign = {}
     for _ in range(nops):
         gi = rng.randrange(len(graphs))
         g = graphs[gi]
         dag = gen.is_acyclic(g)
         choices = ["reach", "reaching", "reach", "reaching", "maxval", "scc_edge", "width", "width_ign", "width"]
-        if dag:
+        if g.get("unrooted"):
+            # widths / covers are about source-to-sink walks and say nothing about a part no source reaches
+            choices = ["reach", "reaching", "reach", "reaching", "maxval", "maxval", "scc_edge", "scc_stats"]
+        elif dag:
             choices += ["memo", "memo", "antichain", "antichain_w", "peel", "bottleneck", "dg_width", "antichain_w"]
         else:
-            choices += ["incompat", "scc_stats"]
+            choices += ["incompat", "scc_stats", "width_ign", "width_ign"]
         op = rng.choice(choices)
         o = {"g": gi, "op": op}
         if op in ("reach", "reaching"):
@@ -75,8 +95,44 @@ def gen_world(seed, tier):
             o["edge"] = [e[0], e[1]]
         elif op in ("width_ign", "dg_width"):
             o["ignore"] = [[e[0], e[1]] for e in g["edges"] if rng.random() < 0.3]
+            if not dag and rf.random() < 0.4:
+                # structured lists: some / all-but-one / all of the edges that share a place in the condensation with a
+                # seeded edge (the member edges of its SCC, or the parallel edges between the same two SCCs)
+                succ_ = {}
+                for a_, b_, _ in g["edges"]:
+                    succ_.setdefault(a_, []).append(b_)
+                    succ_.setdefault(b_, [])
+                reach_ = {x: ref.reachable(succ_, x) for x in succ_}
+                comp_ = {x: min(y for y in succ_ if (y in reach_[x] and x in reach_[y]) or y == x) for x in succ_}
+                e0 = rf.choice(g["edges"])
+                cls = [[a_, b_] for a_, b_, _ in g["edges"] if (comp_[a_], comp_[b_]) == (comp_[e0[0]], comp_[e0[1]])]
+                rf.shuffle(cls)
+                keep = rf.choice([0, 0, 1, 1, rf.randint(0, len(cls))])
+                o["ignore"] = cls[:max(1, len(cls) - keep)]
+            prev = last_ign.get((gi, op))
+            if prev is not None and rf.random() < 0.5:
+                # a neighbour of an earlier query on the same object: one edge more or one edge less
+                o["ignore"] = [list(e) for e in prev]
+                e = rf.choice(g["edges"])
+                if prev and rf.random() < 0.6:
+                    # ... preferably an edge that shares its place in the condensation with one already on the list
+                    succ2 = {}
+                    for a_, b_, _ in g["edges"]:
+                        succ2.setdefault(a_, []).append(b_)
+                        succ2.setdefault(b_, [])
+                    reach2 = {x: ref.reachable(succ2, x) for x in succ2}
+                    comp2 = {x: min(y for y in succ2 if (y in reach2[x] and x in reach2[y]) or y == x) for x in succ2}
+                    p0 = rf.choice(prev)
+                    if p0[0] in comp2 and p0[1] in comp2:
+                        same = [e_ for e_ in g["edges"] if (comp2[e_[0]], comp2[e_[1]]) == (comp2[p0[0]], comp2[p0[1]])]
+                        e = rf.choice(same)
+                if [e[0], e[1]] in o["ignore"]:
+                    o["ignore"].remove([e[0], e[1]])
+                else:
+                    o["ignore"].append([e[0], e[1]])
             if len(o["ignore"]) == len(g["edges"]):
                 o["ignore"].pop()        # at least one edge remains (the all-ignored graph has no width; cf. C09)
+            last_ign[(gi, op)] = [list(e) for e in o["ignore"]]
             if o["ignore"] and rng.random() < 0.3:
                 o["ignore"] = o["ignore"] + [o["ignore"][0]] * rng.randint(1, 3)      # an ignore *list* may repeat an edge
             o["with_st_edges"] = rng.random() < 0.7
@@ -339,6 +395,13 @@ def execute(spec):
                 again = tgt.get_width(edges_to_ignore=ign) if ign else tgt.get_width()
                 if again != val:
                     V("width_changed_over_history", {"ignore": ign, "earlier": val, "now": again}, {"op": "width", "g": 0})
+                # ... and the same as a fresh object of the same graph gives for this one query (nothing asked before)
+                fresh = fp.stDAG(o["G"]) if o["ST"] is not None else fp.stDiGraph(o["G"])
+                ren = {tgt.source: fresh.source, tgt.sink: fresh.sink}
+                ign_f = [(ren.get(a, a), ren.get(b, b)) for a, b in ign]
+                cold = fresh.get_width(edges_to_ignore=ign_f) if ign_f else fresh.get_width()
+                if cold != val:
+                    V("width_differs_from_fresh_object", {"ignore": ign, "in_history": val, "fresh_object": cold}, {"op": "width", "g": 0})
     seen, uniq = set(), []
     for v in vs:
         if v.key not in seen:
